@@ -236,6 +236,11 @@ fn handle(op: &str, a: &[&str]) -> String {
             let mut set = HashSet::new(); set.insert(x.clone());
             format!("{{\"eq\":{},\"hash_eq\":{},\"set_contains\":{}}}", x == y, h(&x) == h(&y), set.contains(&y))
         }
+        "perr_new" => {
+            let env: Vec<char> = unhex(a[0]).chars().collect();
+            let e = narsese::conversion::string::impl_enum::ParseError::new("m", env, a[1].parse::<usize>().unwrap());
+            js(&e.to_string())
+        }
         "lex_parse" => c_res(&lex_fmt(a[0]).parse(&unhex(a[1])), l_narsese),
         "lex_parse_term" => c_res(&lex_fmt(a[0]).parse_term(&unhex(a[1])), l_term),
         "lex_roundtrip" => {
